@@ -67,6 +67,11 @@ HOOK_BODIES = [
     "dependent:DependentType.__lt__",
     "dependent:FuncDependentType.__lt__",
     "dependent:ProductType.__type_order__",
+    "types:MetaMC.__eq__",
+    "types:Union.__eq__",
+    "types:Intersection.__eq__",
+    "types:SingleFunctionHandler.__eq__",
+    "dependent:ParametrizedDependentType.__eq__",
 ]
 
 
@@ -301,7 +306,9 @@ def t_mirror(k1, k2, regime, unfold=1, variant=None):
             elif variant == "both_empty_args":
                 I.assume(z3.And(nargs(t1.t) == 0, nargs(t2.t) == 0))
             elif variant == "plain_bases":
-                I.assume(z3.And(is_kind(base(t1.t), PLAIN), is_kind(base(t2.t), PLAIN)))
+                I.assume(z3.And(is_kind(base(t1.t), PLAIN), is_kind(base(t2.t), PLAIN), base(t1.t) != base(t2.t)))
+            elif variant == "same_base":
+                I.assume(z3.And(is_kind(base(t1.t), PLAIN), base(t1.t) == base(t2.t), t1.t != t2.t))
             elif variant == "hooked_base":
                 I.assume(z3.Not(z3.And(is_kind(base(t1.t), PLAIN), is_kind(base(t2.t), PLAIN))))
             harness(MIRROR_H, "mro")(I, t1, t2)
@@ -454,3 +461,207 @@ def t_alias_argwise():
         harness(ALIAS_ARGWISE_H, "mro")(I, a1, a2, OrderV(expected))
 
     return w, thunk, {"clause": "alias_argwise", "timeout_ms": TIMEOUT_MS, "retry_factor": 1, "fail_fast": True, "uses_lemmas": ["typeorder/reflexive", "Order.merge/ensures"]}
+
+
+# --------------------------------------------------------------------------------------------------
+# C13: subclasscheck against the documented meaning of each (non value-dependent) kind of type
+
+from .universe import ISSUB, ccheck, hasmeth, metacls, pval  # noqa: E402
+
+SC_MEANING_H = """
+def meaning(c, T, expected):
+    assert subclasscheck(c, T) == expected
+"""
+
+SC_REFL_H = """
+def reflexive(t1):
+    assert subclasscheck(t1, t1) == True
+"""
+
+
+def sc_meaning(c, T, k):
+    i = z3.Int("i")
+    n = nargs(T)
+    if k == "Class":
+        return sub(c, T)
+    if k == "Union":
+        return z3.Exists([i], z3.And(0 <= i, i < n, SC(c, arg(T, i))))
+    if k == "Inter":
+        return z3.ForAll([i], z3.Implies(z3.And(0 <= i, i < n), SC(c, arg(T, i))))
+    if k == "Exactly":
+        return c == base(T)
+    if k == "Strict":
+        return z3.And(ISSUB(c, base(T)), c != base(T))
+    if k == "HasMethod":
+        return hasmeth(c, pval(T, 0))
+    if k == "ClassCheck":
+        return ccheck(T, c)
+    raise KeyError(k)
+
+
+C13_KINDS = ["Class", "Union", "Inter", "Exactly", "Strict", "HasMethod", "ClassCheck"]
+
+
+def t_sc_meaning(k):
+    """subclasscheck/meaning[K]: for a plain class c and a type T of kind K, subclasscheck(c, T) is the
+    documented meaning of T applied to c (members through the spec function SC, i.e. the induction
+    hypothesis for the strictly smaller component types)."""
+
+    def build():
+        w = MroWorld(unfold=0, sc_unfold=1)
+        c, T = _pair_consts()
+
+        def thunk(I):
+            I.assume(kind(c.t) == K["Class"])
+            I.assume(kind(T.t) == K[k])
+            I.assume(c.t != T.t)
+            harness(SC_MEANING_H, "mro")(I, c, T, ZV(sc_meaning(c.t, T.t, k), "bool"))
+
+        return w, thunk, {"kinds": ["Class", k], "clause": "meaning", "timeout_ms": TIMEOUT_MS, "retry_factor": 1, "fail_fast": True}
+
+    return build
+
+
+def t_sc_reflexive(k):
+    def build():
+        w = MroWorld(unfold=0, sc_unfold=1)
+        t1, _ = _pair_consts()
+
+        def thunk(I):
+            I.assume(kind(t1.t) == K[k])
+            harness(SC_REFL_H, "mro")(I, t1)
+
+        return w, thunk, {"kinds": [k], "timeout_ms": TIMEOUT_MS, "retry_factor": 1, "fail_fast": True}
+
+    return build
+
+
+def t_sc_alias_covariant():
+    """subclasscheck(o1[a...], o2[b...])  <=>  issubclass(o1, o2) and len(a) == len(b) and all subclasscheck(a_i, b_i)."""
+    w = MroWorld(unfold=0, sc_unfold=1)
+    a1, a2 = _pair_consts()
+
+    def thunk(I):
+        I.assume(kind(a1.t) == K["Alias"])
+        I.assume(kind(a2.t) == K["Alias"])
+        I.assume(a1.t != a2.t)
+        i = z3.Int("i")
+        n = nargs(a1.t)
+        exp = z3.And(sub(base(a1.t), base(a2.t)), nargs(a1.t) == nargs(a2.t), z3.ForAll([i], z3.Implies(z3.And(0 <= i, i < n), SC(arg(a1.t, i), arg(a2.t, i)))))
+        harness(SC_MEANING_H, "mro")(I, a1, a2, ZV(exp, "bool"))
+
+    return w, thunk, {"kinds": ["Alias", "Alias"], "clause": "alias_covariant", "timeout_ms": TIMEOUT_MS, "retry_factor": 1, "fail_fast": True}
+
+
+def t_sc_class_vs_alias():
+    """a plain class is never a subtype of a parametrised generic with arguments; a parametrised generic is a
+    subtype of a plain class exactly when its origin is a subclass of it."""
+    w = MroWorld(unfold=0, sc_unfold=1)
+    c, T = _pair_consts()
+
+    SRC = """
+def class_vs_alias(c, T, e1, e2):
+    assert subclasscheck(c, T) == e1
+    assert subclasscheck(T, c) == e2
+"""
+
+    def thunk(I):
+        I.assume(kind(c.t) == K["Class"])
+        I.assume(kind(T.t) == K["Alias"])
+        I.assume(nargs(T.t) > 0)
+        harness(SRC, "mro")(I, c, T, False, ZV(sub(base(T.t), c.t), "bool"))
+
+    return w, thunk, {"kinds": ["Class", "Alias"], "clause": "class_vs_alias", "timeout_ms": TIMEOUT_MS, "retry_factor": 1, "fail_fast": True}
+
+
+def t_sc_transitive_fragment():
+    """Lemma over the contracts above (pure z3, induction on total rank): on the class / generic fragment
+    subclasscheck is transitive."""
+    w = TypesWorld()
+
+    def thunk(I):
+        a, b, c = z3.Consts("t1 t2 t3", TyS)
+        x, y = z3.Consts("x y", TyS)
+        i = z3.Int("i")
+        frag = lambda t: is_kind(t, ["Class", "Alias"])
+        # characterisation of SC on the fragment = the proved obligations class_fragment / alias_covariant / class_vs_alias / reflexive
+        char = z3.ForAll(
+            [x, y],
+            z3.Implies(
+                z3.And(frag(x), frag(y)),
+                SC(x, y)
+                == z3.If(
+                    x == y,
+                    True,
+                    z3.If(
+                        z3.And(kind(x) == K["Class"], kind(y) == K["Class"]),
+                        sub(x, y),
+                        z3.If(
+                            z3.And(kind(x) == K["Alias"], kind(y) == K["Alias"]),
+                            z3.And(sub(base(x), base(y)), nargs(x) == nargs(y), z3.ForAll([i], z3.Implies(z3.And(0 <= i, i < nargs(x)), SC(arg(x, i), arg(y, i))))),
+                            z3.If(kind(x) == K["Alias"], sub(base(x), y), z3.And(nargs(y) == 0, sub(x, base(y)))),
+                        ),
+                    ),
+                ),
+            ),
+            patterns=[SC(x, y)],
+        )
+        I.assume(char)
+        for t in (a, b, c):
+            I.assume(frag(t))
+        # arguments of aliases in the fragment are in the fragment (hereditarily class/generic types)
+        I.assume(z3.ForAll([x, i], z3.Implies(z3.And(kind(x) == K["Alias"], 0 <= i, i < nargs(x)), frag(arg(x, i))), patterns=[arg(x, i)]))
+        # induction hypothesis: transitivity for triples of strictly smaller total rank
+        p, q, r = z3.Consts("p q r", TyS)
+        I.assume(z3.ForAll([p, q, r], z3.Implies(z3.And(frag(p), frag(q), frag(r), rank(p) + rank(q) + rank(r) < rank(a) + rank(b) + rank(c), SC(p, q), SC(q, r)), SC(p, r)), patterns=[z3.MultiPattern(SC(p, q), SC(q, r))]))
+        I.assume(z3.And(SC(a, b), SC(b, c)))
+        # zero-argument aliases (tuple[()]) are the F-emptyalias corner; excluded here as there
+        for t in (a, b, c):
+            I.assume(z3.Implies(kind(t) == K["Alias"], nargs(t) > 0))
+        I.require(SC(a, c), "lemma.transitive_on_class_generic_fragment")
+
+    return w, thunk, {"clause": "transitive", "timeout_ms": 20000, "uses_lemmas": ["subclasscheck/class_fragment", "subclasscheck/alias_covariant", "subclasscheck/class_vs_alias", "subclasscheck/reflexive"]}
+
+
+# --------------------------------------------------------------------------------------------------
+# == on type objects: the real __eq__ bodies agree with identity of type terms (justifies the
+# extensionality axioms of the universe; C15 "equivalent spellings" and the dict/set keys of the tables)
+
+
+def _components_equal(a, b):
+    i = z3.Int("i")
+    return z3.And(
+        kind(a) == kind(b),
+        metacls(a) == metacls(b),
+        z3.Implies(is_kind(a, ["Union", "Inter", "Product"]), z3.And(nargs(a) == nargs(b), z3.ForAll([i], z3.Implies(z3.And(0 <= i, i < nargs(a)), arg(a, i) == arg(b, i))))),
+        z3.Implies(is_kind(a, ["Equals", "FuncDep", "HasMethod"]), z3.And(nargs(a) == nargs(b), z3.ForAll([i], z3.Implies(z3.And(0 <= i, i < nargs(a)), pval(a, i) == pval(b, i))))),
+        z3.Implies(is_kind(a, ["Exactly", "Strict", "Equals", "FuncDep", "Product"]), base(a) == base(b)),
+        z3.Implies(kind(a) == K["ClassCheck"], a == b),  # a class_check type is identified by its predicate object
+    )
+
+
+def t_eq_sound(k1, k2):
+    """t1 == t2 (through the real __eq__ bodies, dispatched as CPython does) implies that the two types are of
+    the same kind with equal components - so equal types are interchangeable as table keys - and == is symmetric."""
+
+    def build():
+        w = MroWorld(unfold=0, sc_unfold=0)
+        t1, t2 = _pair_consts()
+
+        def thunk(I):
+            I.assume(kind(t1.t) == K[k1])
+            I.assume(kind(t2.t) == K[k2])
+            r = w.python_eq(I, t1, t2)
+            r = z3.BoolVal(r) if isinstance(r, bool) else r
+            I.require(z3.Implies(r, z3.Or(t1.t == t2.t, _components_equal(t1.t, t2.t))), "eq_implies_same_kind_and_components")
+            r2 = w.python_eq(I, t2, t1)
+            r2 = z3.BoolVal(r2) if isinstance(r2, bool) else r2
+            I.require(r == r2, "eq_symmetric")
+            if k1 == k2:
+                I.require(z3.Implies(t1.t == t2.t, r), "eq_reflexive")
+                if k1 in ("Union", "Inter", "Product", "Equals", "FuncDep"):
+                    I.require(z3.Implies(_components_equal(t1.t, t2.t), r), "eq_complete_on_equal_components")
+
+        return w, thunk, {"kinds": [k1, k2], "clause": "eq", "timeout_ms": TIMEOUT_MS, "retry_factor": 1, "fail_fast": True}
+
+    return build
